@@ -549,7 +549,8 @@ class CallMixin:
         try:
             env2 = Env(env.module, dict(env.locals), env.closure)
             env2.locals.update(fr.get("old_env") or {})
-            return self.ev(expr, env2)
+            # a container reference is resolved *now*, in the old heap
+            return self.deref(self.ev(expr, env2))
         finally:
             self.heap_override = saved_h
 
@@ -557,6 +558,7 @@ class CallMixin:
         """Evaluate contract function `fname` in spec mode; parameters resolved by name."""
         fn = contract.funcs[fname]
         saved = (self.spec_mode, self.spec_frame)
+        saved_line = self.cur_line
         self.spec_mode = True
         self.spec_frame = {"old_heap": old_heap, "old_env": old_env}
         try:
@@ -571,6 +573,7 @@ class CallMixin:
             return self.spec_block(fn.body, env)
         finally:
             self.spec_mode, self.spec_frame = saved
+            self.cur_line = saved_line
 
     def eval_invariant(self, fr: Frame, inv_fn, env: Env, extra: dict):
         values = dict(env.locals)
@@ -580,6 +583,7 @@ class CallMixin:
         # only names that are bound
         values = {k: v for k, v in values.items() if v is not None}
         saved = (self.spec_mode, self.spec_frame)
+        saved_line = self.cur_line
         self.spec_mode = True
         self.spec_frame = {"old_heap": fr.entry_heap, "old_env": fr.entry_env}
         try:
@@ -593,6 +597,7 @@ class CallMixin:
             return self.truthy(self.spec_block(inv_fn.body, Env(fr.contract.module, loc)))
         finally:
             self.spec_mode, self.spec_frame = saved
+            self.cur_line = saved_line
 
     # ------------------------------------------------------------------ contract application at call sites
     def apply_contract(self, c, f, bound: dict) -> V:
@@ -688,7 +693,7 @@ class CallMixin:
     def enum_dom(self, key: V, dom):
         """Enumeration of a finite domain: (n, order: Int->K, pos: K->Int) with the
         bijection facts.  Memoised on the dom term."""
-        mk = ("enum", dom.get_id())
+        mk = ("enum", strings._tid(dom))
         if mk in self.path.memo:
             return self.path.memo[mk]
         ks = key.leaves()[0].sort()
